@@ -428,7 +428,8 @@ def run_bake_line(op):
         if not nums:
             I.oblige('ensures[line]', False, 'property', note=f"no amount in {step.fields['instructions']!r:.150}")
             return out
-        added = first.fields['contents'].amt[w.term] - z3.If(ca.fields['contents'].mem[w.term], ca.fields['contents'].amt[w.term], 0)
+        held = lambda c_: z3.If(c_.fields['contents'].mem[w.term], c_.fields['contents'].amt[w.term], 0)      # noqa: E731
+        added = held(first) - held(ca)
         I.assume(added >= 0)      # contract of dilute / fill_to (C11 only-solvent): the solvent never decreases
         S_ = spec.SubSpec(2, mw(w.term), dens(w.term), sa(w.term))
         # the amount printed is the last number of the line ("... by adding <v> <unit> ...")
